@@ -74,6 +74,19 @@ func treeWorkload(c *Ctx, nMut, nGen int, f func(entry, input string)) {
 		}
 		idx++
 	}
+	// systematic single-token edits of every corpus file: each token deleted, a comma inserted before each token
+	if nMut > 0 {
+		for _, cc := range c.Corpus() {
+			if c.Mine(idx) {
+				ents := cc.Entries()
+				gen.SystematicEdits(cc.Text, func(m string) {
+					f(ents[0], m)
+					c.Count("systematic_edits", 1)
+				})
+			}
+			idx++
+		}
+	}
 	if ExtraSentences != nil && nGen > 0 {
 		ExtraSentences(c, nGen, f)
 	}
